@@ -106,4 +106,5 @@ def main():
     sys.stdout.write('\n@@RESULT@@' + json.dumps(dict(ok=True, results=res)))
 
 
-main()
+if __name__ == '__main__':
+    main()
